@@ -1183,6 +1183,81 @@ def oracle_events(rec):
                 O["t0"], O["dt"], O["n"], O["u"], off * dt, dt, L, spec["u"]), None, None)
 
 
+# ----------------------------------------------------------------------------- 2-d coded events, per-channel code sets
+def gen_evcodes_spec(rng, k):
+    x, u = gen_interval(rng)
+    c = rng.randint(2, 4)
+    ncodes = rng.randint(1, 3)
+    n = rng.choice([120, 150, 201])
+    L, off = rng.randint(3, 7), rng.choice([0, 0, 1, 2])
+    pool = [1, 2, 3, 4, 5, 7, 9]
+    chans = []
+    for ch in range(c):
+        # every channel has its OWN set of ncodes event codes (same count: the analyzer stacks the channels),
+        # sometimes equal to the first channel's, mostly different
+        codes = sorted(rng.sample(pool, ncodes)) if (ch > 0 and k % 4 != 0) or ch == 0 else list(chans[0]["codes"])
+        ev = {}
+        free = list(range(3, n - L - 4))
+        rng.shuffle(free)
+        for cd in codes:
+            cnt = rng.randint(1, 4)
+            ev[str(cd)] = sorted(free[:cnt])
+            free = free[cnt:]
+        chans.append({"codes": codes, "pos": ev})
+    return {"mode": "interval", "x": float(x).hex(), "t0": float(rng.randint(1, 40)).hex(), "u": u, "shape": [c, n],
+            "seed": rng.randint(0, 2 ** 31 - 1), "len_et": L, "offset": off, "chans": chans}
+
+
+def run_evcodes(spec):
+    import nitime.timeseries as ts
+    import nitime.analysis as nta
+    rec = {"spec": spec, "outs": [], "diff": [], "errors": [], "fs_used": [], "_vals": {}}
+    c, n = spec["shape"]
+    L, off = spec["len_et"], spec["offset"]
+    try:
+        with warnings.catch_warnings():
+            warnings.simplefilter("ignore")
+            T, data = build_series(spec)
+            rec["iobs"] = obs_of(T)
+            e = np.zeros((c, n))
+            for ch, cd in enumerate(spec["chans"]):
+                for code, pos in cd["pos"].items():
+                    e[ch, pos] = int(code)
+            E = ts.TimeSeries(e, sampling_interval=T.sampling_interval, t0=T.t0, time_unit=T.time_unit)
+            EA = nta.EventRelatedAnalyzer(T, E, L, offset=off)
+            for nm in ("eta", "ets"):
+                S = getattr(EA, nm)
+                rec["outs"].append({"name": "EventRelatedAnalyzer.%s[per-channel codes]" % nm, "sel": "(OEvInterval %s %s)" % (zlit(off), zlit(L)),
+                                    "obs": obs_of(S)})
+                rec[nm] = np.array(S.data)
+            rec["data"] = data
+    except Exception as e_:  # noqa
+        rec["errors"].append(("EventRelatedAnalyzer[per-channel codes]", "%s: %s" % (type(e_).__name__, str(e_)[:120])))
+    return rec
+
+
+def oracle_evcodes(rec):
+    spec = rec["spec"]
+    yield from oracle_axis(rec)
+    if "eta" not in rec or "ets" not in rec:
+        return
+    c, n = spec["shape"]
+    L, off = spec["len_et"], spec["offset"]
+    k = len(spec["chans"][0]["codes"])
+    want_shape = (c, k, L) if k > 1 else (c, L)
+    name = "EventRelatedAnalyzer.eta[per-channel codes]"
+    if rec["eta"].shape != want_shape or rec["eta"].shape != rec["ets"].shape:
+        yield Fail("C15/%s/shape" % name, "eta has shape %s, ets %s; every channel has %d event codes of its own: required %s" % (
+            rec["eta"].shape, rec["ets"].shape, k, want_shape), list(rec["eta"].shape), list(want_shape))
+        return
+    pad = np.hstack([np.zeros((c, off)), rec["data"], np.zeros((c, L))])
+    ref = np.array([[np.mean([pad[ch, p_ + 2 * off:p_ + 2 * off + L] for p_ in cd["pos"][str(code)]], 0) for code in sorted(cd["codes"])]
+                    for ch, cd in enumerate(spec["chans"])]).reshape(want_shape)
+    if not close(np.real(rec["eta"]), ref) or np.isnan(rec["eta"]).any():
+        yield Fail("C15/%s/differential" % name, "eta rows are not the means of each channel's own event-locked segments, in the order of "
+                   "that channel's sorted codes %s" % [cd["codes"] for cd in spec["chans"]], np.real(rec["eta"]).ravel()[:4].tolist(), ref.ravel()[:4].tolist())
+
+
 # ----------------------------------------------------------------------------- G: keyword table
 def gen_handover():
     """which keywords every analyzer output passes to TimeSeries(...): read off the running code by
@@ -1339,6 +1414,12 @@ def run_one(item, tmp):
         rec = run_concat(item["spec"])
         cases = [concat_case(rec)] if "out" in rec else []
         fails = list(oracle_concat(rec))
+    elif k == "evcodes":
+        rec = run_evcodes(item["spec"])
+        cases = axis_case(rec) if "iobs" in rec else []
+        fails = list(oracle_evcodes(rec))
+        for key_ in ("data", "eta", "ets"):
+            rec.pop(key_, None)
     elif k == "events":
         rec = run_events(item["spec"])
         cases = []
@@ -1397,6 +1478,7 @@ def run(ctx):
     items += [{"kind": "concat", "spec": gen_concat_spec(rng, k)} for k in range(ctx.scale(60, 600))]
     items += [{"kind": "read", "spec": gen_read_spec(rng, k)} for k in range(ctx.scale(64, 480))]
     items += [{"kind": "seq", "spec": gen_seq_spec(rng, k)} for k in range(ctx.scale(40, 300))]
+    items += [{"kind": "evcodes", "spec": gen_evcodes_spec(rng, k)} for k in range(ctx.scale(24, 200))]
     items += [{"kind": "events", "spec": gen_events_spec(rng, k)} for k in range(ctx.scale(len(EV_RATES), 6 * len(EV_RATES)))]
     tmp = tempfile.mkdtemp(prefix="c15_nifti_")
     all_cases, all_fails = [], []
